@@ -15,8 +15,10 @@ package banner
 //@   assigns nothing
 //@   ensures[C14:frameable-iff-200-html-not-attachment] r0 <==> (statusCode == 200 && !isAttachment(responseHeader) && isHTMLType(responseHeader))
 //@   loop 1
+//@     at for _, contentDisposition := range responseHeader[contentDispositionHeader]
 //@     invariant[C14:no-attachment-so-far] statusCode == 200 && forall(i, 0, idx + 1, !contains(values(responseHeader, "Content-Disposition")[i], "attachment"))
 //@   loop 2
+//@     at for _, contentType := range responseHeader[contentTypeHeader]
 //@     invariant[C14:no-html-type-so-far] statusCode == 200 && !isAttachment(responseHeader) && forall(i, 0, idx + 1, !(contains(values(responseHeader, "Content-Type")[i], "text/html") || contains(values(responseHeader, "Content-Type")[i], "application/xhtml+xml")))
 
 //@ func isAlreadyFramed props(C14,C07)
@@ -103,6 +105,7 @@ package banner
 
 // ---- the handler (C14): non-HTML requests get the original writer; HTML requests get a banner writer around it ----
 //@ func Proxy$1 props(C14,C07)
+//@   at if !isHTMLRequest(r)
 //@   requires r != nil && r.URL != nil && wrapped != nil && w != nil
 //@   ghost served int = 0
 //@   ghost html bool = false
